@@ -57,8 +57,10 @@ class Layout(object):
                         inc.add(j)
             self.includes.append(sorted(inc))
 
+    stems = None
+
     def stem(self, i):
-        return 'f%d' % i
+        return self.stems[i] if self.stems else 'f%d' % i
 
     def rel_dir(self, i):
         """Directory (relative to the root) that holds file i."""
@@ -128,13 +130,17 @@ def layouts(draw, opts=None, min_files=2, max_files=5):
     schema = draw(gen.schemas(opts))
     n = draw(st.integers(min_files, max_files))
     assignment = {}
+    top = 0
     for d in schema.decls:
+        # grow the number of files gradually so that layouts with 4-5 files (diamonds, long chains) are common
         lo = max([assignment[x] for x in decl_name_deps(schema, d)] or [0])
-        assignment[d.name] = draw(st.integers(lo, n - 1))
+        hi = min(n - 1, max(top + 1, lo))
+        assignment[d.name] = draw(st.integers(lo, hi))
+        top = max(top, assignment[d.name])
     used = sorted(set(assignment.values()))
     remap = {old: new for new, old in enumerate(used)}
     assignment = {k: remap[v] for k, v in assignment.items()}
-    arrangement = draw(st.sampled_from(['flat', 'subdirs', 'relpath']))
+    arrangement = draw(st.sampled_from(['flat', 'subdirs', 'relpath', 'relpath']))
     return Layout(schema, assignment, len(used), arrangement)
 
 
